@@ -150,7 +150,7 @@ pub struct Scene {
 // ------------------------------------------------------------------ string / number generators
 
 pub const STRING_CLASSES: &[&str] = &[
-    "ascii", "markup", "cdata_end", "ws_only", "empty", "bmp", "astral", "long", "mixed", "newlines", "edge_chars",
+    "ascii", "markup", "cdata_end", "ws_only", "empty", "bmp", "astral", "long", "mixed", "newlines", "edge_chars", "html",
 ];
 
 pub fn gen_string_class(r: &mut Rng, class: &str) -> String {
@@ -202,6 +202,19 @@ pub fn gen_string_class(r: &mut Rng, class: &str) -> String {
         "long" => {
             let n = 2000 + r.usize(6000);
             (0..n).map(|i| (b'a' + (i % 26) as u8) as char).collect()
+        }
+        "html" => {
+            // a markup-heavy fragment (as pasted into descriptions): hundreds of unclosed tags after a '>'
+            let n = *r.pick(&[40usize, 120, 300, 700]);
+            let tag = *r.pick(&["<li>", "<br>", "<p>", "<td>x"]);
+            let mut s = String::from("<ul>");
+            for i in 0..n {
+                s.push_str(tag);
+                if i % 50 == 0 {
+                    s.push_str("item");
+                }
+            }
+            s
         }
         "newlines" => {
             let pieces = ["\n", "a", "\n\n", " \n ", "b\tc"];
